@@ -13,7 +13,7 @@ warnings.filterwarnings("ignore")
 import bt  # noqa: E402
 import bt.core as core  # noqa: E402
 import bt.algos as algos  # noqa: E402
-from impl_engine import name_of, id_of, fx, make_comm, classify, dump_tree, pf  # noqa: E402
+from impl_engine import name_of, id_of, fx, make_comm, classify, dump_tree, pf, install_trace  # noqa: E402
 
 KW_NAMES = ("bidoffer", "coupons", "cost_long", "cost_short")
 
@@ -210,6 +210,7 @@ def run_case(c, out, extra=None):
 
 
 def main():
+    install_trace()
     cases = json.load(sys.stdin)
     out = []
     for c in cases:
